@@ -120,6 +120,60 @@ impl Tree4 {
         r
     }
 }
+/// depth 3: 8 leaves, 4 + 2 internal nodes, root
+pub struct Tree8 {
+    pub l: [B32; 8],
+    pub m: [B32; 4],
+    pub n: [B32; 2],
+    pub root: B32,
+}
+pub fn build8<X: Kind>(e: &Env, l: [B32; 8], sorted: bool) -> Tree8 {
+    let f = |a: &B32, b: &B32| if sorted { node_sorted::<X>(e, a, b) } else { node_pos::<X>(e, a, b) };
+    let m = [f(&l[0], &l[1]), f(&l[2], &l[3]), f(&l[4], &l[5]), f(&l[6], &l[7])];
+    let n = [f(&m[0], &m[1]), f(&m[2], &m[3])];
+    let root = f(&n[0], &n[1]);
+    Tree8 { l, m, n, root }
+}
+fn pick<const N: usize>(a: &[B32; N], i: u32) -> B32 {
+    let mut r = a[0].clone();
+    let mut k = 1;
+    while k < N {
+        if i == k as u32 {
+            r = a[k].clone();
+        }
+        k += 1;
+    }
+    r
+}
+impl Tree8 {
+    pub fn leaf(&self, i: u32) -> B32 {
+        pick(&self.l, i)
+    }
+    pub fn sibling(&self, i: u32) -> B32 {
+        pick(&self.l, i ^ 1)
+    }
+    pub fn uncle(&self, i: u32) -> B32 {
+        pick(&self.m, (i / 2) ^ 1)
+    }
+    pub fn great_uncle(&self, i: u32) -> B32 {
+        pick(&self.n, (i / 4) ^ 1)
+    }
+    pub fn is_honest(&self, i: u32, x: &B32, p0: &B32, p1: &B32, p2: &B32) -> bool {
+        *x == self.leaf(i) && *p0 == self.sibling(i) && *p1 == self.uncle(i) && *p2 == self.great_uncle(i)
+    }
+    pub fn is_honest_any(&self, x: &B32, p0: &B32, p1: &B32, p2: &B32) -> bool {
+        let mut r = false;
+        let mut i = 0u32;
+        while i < 8 {
+            r |= self.is_honest(i, x, p0, p1, p2);
+            i += 1;
+        }
+        r
+    }
+}
+pub fn free_leaves8() -> [B32; 8] {
+    [arb32(), arb32(), arb32(), arb32(), arb32(), arb32(), arb32(), arb32()]
+}
 pub fn free_leaves() -> [B32; 4] {
     [arb32(), arb32(), arb32(), arb32()]
 }
@@ -543,6 +597,74 @@ macro_rules! merkle_family {
                 );
                 witness!(r && n == CAP as u32, "verifies_len_cap");
                 witness!(!r && n == 0, "fails_len0");
+                kani::assert(!world().overflow, "MODEL-OVERFLOW: flag set");
+            }
+
+            // ------------------------------------------------------------ depth 3 (8 leaves; profile with NH = 24)
+            #[kani::proof]
+            #[kani::unwind(26)]
+            pub fn honest8() {
+                let e = Env::default();
+                let sorted: bool = kani::any();
+                let t = build8::<X>(&e, free_leaves8(), sorted);
+                let i: u32 = kani::any();
+                kani::assume(i < 8);
+                let proof = Vec::from_array(&e, [t.sibling(i), t.uncle(i), t.great_uncle(i)]);
+                world().must_succeed = true;
+                let r = if sorted {
+                    Verifier::<H>::verify(&e, proof, t.root.clone(), t.leaf(i))
+                } else {
+                    Verifier::<H>::verify_with_index(&e, proof, t.root.clone(), t.leaf(i), i)
+                };
+                world().must_succeed = false;
+                if sorted {
+                    prop!(r, concat!("C17.", $tag, ".verify.depth3.honest_proof_accepted"));
+                } else {
+                    prop!(r, concat!("C17.", $tag, ".verify_with_index.depth3.honest_proof_accepted"));
+                }
+                witness!(sorted && i == 5, "sorted_leaf5");
+                witness!(!sorted && i == 6, "indexed_leaf6");
+                kani::assert(!world().overflow, "MODEL-OVERFLOW: flag set");
+            }
+            #[kani::proof]
+            #[kani::unwind(26)]
+            pub fn sound8_sorted() {
+                let e = Env::default();
+                let t = build8::<X>(&e, free_leaves8(), true);
+                let x = arb32();
+                let p0 = arb32();
+                let p1 = arb32();
+                let p2 = arb32();
+                let proof = Vec::from_array(&e, [p0.clone(), p1.clone(), p2.clone()]);
+                let r = Verifier::<H>::verify(&e, proof, t.root.clone(), x.clone());
+                if r {
+                    prop!(t.is_honest_any(&x, &p0, &p1, &p2), concat!("C17.", $tag, ".verify.depth3.full_depth_proof_is_the_honest_one"));
+                }
+                witness!(r, "some_proof_verifies");
+                witness!(!r, "some_proof_fails");
+                kani::assert(!world().overflow, "MODEL-OVERFLOW: flag set");
+            }
+            #[kani::proof]
+            #[kani::unwind(26)]
+            pub fn sound8_indexed() {
+                let e = Env::default();
+                let t = build8::<X>(&e, free_leaves8(), false);
+                let x = arb32();
+                let p0 = arb32();
+                let p1 = arb32();
+                let p2 = arb32();
+                let idx: u32 = kani::any();
+                let proof = Vec::from_array(&e, [p0.clone(), p1.clone(), p2.clone()]);
+                let r = Verifier::<H>::verify_with_index(&e, proof, t.root.clone(), x.clone(), idx);
+                prop!(idx < 8, concat!("C17.", $tag, ".verify_with_index.index_below_two_pow_len"));
+                if r {
+                    prop!(
+                        t.is_honest(idx, &x, &p0, &p1, &p2),
+                        concat!("C17.", $tag, ".verify_with_index.depth3.full_depth_proof_verifies_only_the_leaf_at_index")
+                    );
+                }
+                witness!(r && idx == 6, "some_proof_verifies_at_6");
+                witness!(!r, "some_proof_fails");
                 kani::assert(!world().overflow, "MODEL-OVERFLOW: flag set");
             }
 
